@@ -61,6 +61,9 @@ CHECKS = {
  "C04": ("exhaustive enumeration of lexeme sequences, token edits, byte strings, nesting ladders and adversarial bindings with hook-enforced oracles",
          "Every concatenation of <=3 lexeme spellings (thorough: 77 spellings, and length 4 over a 48-spelling core) through ParseQuery/ParseStatement/ParseExpr; every single-token edit of every statement of the grammar model within 1 (2) deviations; every byte string of length <=2 and length-3 strings over 41 selected bytes; 17 nesting/length ladders up to n=1024 (4096); every value slot bound to 37 adversarial parameter values. Oracle: no panic, never (nil,nil), no read of an unfilled or overwritten slot of the two 3-slot pushback rings (verif hook at curr()/read()), token reads <= 40*(runes+8) (hook budget), and String()/Walk of any returned result do not panic.",
          "Random / coverage-guided generation (named in the property's quantifier) is another family and not attempted; linearity is measured in scanner calls, not time.", "3/C04"),
+ "C12": ("exhaustive enumeration of statements x deviation-bounded schemas against an independent expansion model",
+         "Full product of 27 field forms x 7 GROUP BY forms x 11 source forms (measurements, lists, 1-2 level subqueries, unknown and empty measurements) x 2 conditions, under every schema within 1 (2) deviations of a base schema of three measurements with overlapping names and conflicting types; RewriteFields' result must equal the result of an expansion model written from the property text (matching columns sorted by name, types by precedence across sources, tags left out of calls and out of fields when grouped by, per-function type filters, untyped references typed), the receiver must be unchanged and 5 (13) repeated runs with fresh maps must agree.",
+         "Independence from Go's map iteration order is decided by repetition, not enumeration (map order cannot be controlled without changing the runtime). The model is a re-implementation and was validated against the repository's own RewriteFields test table through the zero-violation run.", "3/C12"),
 }
 ALL = ["C%02d" % i for i in range(1, 21)]
 NOT_YET = "check not built yet in this revision of /verif (work in progress; see DESIGN.md section 3 for the planned bounded-exhaustive check)"
